@@ -4,6 +4,7 @@ package vcase
 
 import (
 	"fmt"
+	"strings"
 
 	"go.flow.arcalot.io/engine/internal/verif/vplug"
 	"pgregory.net/rapid"
@@ -12,6 +13,21 @@ import (
 // GenTreeCase draws a C20 case: a tree of workflow files (depth up to 3, shared sub-workflows,
 // sub-directories) whose main workflow has several outputs, among them `error`, and optionally an
 // explicit output schema with generated error flags.
+// spellRef draws a spelling of a file reference: as it is, with a leading "./", or with a doubled
+// separator - all name the same file.
+func spellRef(t *rapid.T, name, label string) string {
+	switch rapid.IntRange(0, 3).Draw(t, label+".spelling") {
+	case 1:
+		return "./" + name
+	case 2:
+		if i := strings.Index(name, "/"); i > 0 {
+			return name[:i] + "//" + name[i+1:]
+		}
+		return "./" + name
+	}
+	return ""
+}
+
 func GenTreeCase(t *rapid.T) *Case {
 	itemIn := []InField{{Name: "k", Type: "string", Required: true}, {Name: "n", Type: "int", Required: true}}
 	c := &Case{Prop: "C20", Profile: "tree", Subs: map[string]*Program{}, InputDoc: map[string]any{},
@@ -28,7 +44,7 @@ func GenTreeCase(t *rapid.T) *Case {
 	for d := depth - 1; d >= 1; d-- {
 		name := rapid.SampledFrom([]string{fmt.Sprintf("mid%d.yaml", d), fmt.Sprintf("sub/mid%d.yaml", d)}).Draw(t, fmt.Sprintf("mid%d.name", d))
 		mid := &Program{Input: itemIn,
-			Steps: []*Step{{ID: "in", Kind: "foreach", Workflow: next, Parallelism: LitVal(IntLit(2)), Items: &Val{K: "list", Vals: []*Val{
+			Steps: []*Step{{ID: "in", Kind: "foreach", Workflow: next, WorkflowSpelling: spellRef(t, next, fmt.Sprintf("mid%d.ref", d)), Parallelism: LitVal(IntLit(2)), Items: &Val{K: "list", Vals: []*Val{
 				MapVal([]string{"k", "n"}, []*Val{ExprVal(&Expr{K: "bin", Op: "+", Args: []*Expr{{K: "in", Field: "k"}, {K: "lit", Lit: StrLit(fmt.Sprintf(".m%d#a", d))}}}), ExprVal(&Expr{K: "in", Field: "n"})}),
 				MapVal([]string{"k", "n"}, []*Val{ExprVal(&Expr{K: "bin", Op: "+", Args: []*Expr{{K: "in", Field: "k"}, {K: "lit", Lit: StrLit(fmt.Sprintf(".m%d#b", d))}}}), LitVal(IntLit(int64(d)))}),
 			}}}},
@@ -52,7 +68,7 @@ func GenTreeCase(t *rapid.T) *Case {
 		for i := 0; i < n; i++ {
 			items.Vals = append(items.Vals, MapVal([]string{"k", "n"}, []*Val{LitVal(StrLit(fmt.Sprintf("%s#%d", id, i))), ExprVal(&Expr{K: "in", Field: "i"})}))
 		}
-		prog.Steps = append(prog.Steps, &Step{ID: id, Kind: "foreach", Workflow: target, Items: items})
+		prog.Steps = append(prog.Steps, &Step{ID: id, Kind: "foreach", Workflow: target, WorkflowSpelling: spellRef(t, target, id+".ref"), Items: items})
 	}
 	// a plain step decides which output is produced
 	outcome := rapid.SampledFrom([]string{"success", "error", "alt", "crash"}).Draw(t, "decider.outcome")
